@@ -352,6 +352,16 @@ impl Msg {
             Msg::Prov(m) => m.to_xml_bytes().to_vec(),
             Msg::Publ(m) => m.to_xml_bytes().to_vec(),
         };
+        // every way out says the same: the text form is these octets
+        let text = match self {
+            Msg::Child(m) => m.to_xml_string(),
+            Msg::Parent(m) => m.to_xml_string(),
+            Msg::Publisher(m) => m.to_xml_string(),
+            Msg::Repo(m) => m.to_xml_string(),
+            Msg::Prov(m) => m.to_xml_string(),
+            Msg::Publ(m) => m.to_xml_string(),
+        };
+        if text.as_bytes() != &whole[..] { return text.into_bytes(); }
         // the same document through a writer that takes five octets per call (a socket, a pipe); when the two differ the odd one
         // out is handed on, so that whoever reads it notices
         let mut w = Pieces(5, Vec::new());
